@@ -59,7 +59,8 @@ func genC19(t *rapid.T) c19Case {
 	c.Cfg.Filename = rapid.SampledFrom([]string{"", "", "custom", "with%percent", "ünï"}).Draw(t, "filename")
 	c.Cfg.Ext = rapid.SampledFrom([]string{"", "", ".html", ".json", ".%d"}).Draw(t, "ext")
 	c.Mode2, c.Upd2 = genReadOnlyMode(t)
-	if c.Cfg.Filename == "" && c.Cfg.Ext == "" && c.Upd2 == nil && rapid.Bool().Draw(t, "pkglevel") {
+	c.Cfg.JSON = rapid.SampledFrom(jsonCfgPool).Draw(t, "jsonoptions")
+	if c.Cfg.Filename == "" && c.Cfg.Ext == "" && c.Upd2 == nil && c.Cfg.JSON == nil && rapid.Bool().Draw(t, "pkglevel") {
 		c.Cfg.PkgLevel = true // package-level MatchStandaloneSnapshot / MatchStandaloneJSON / MatchSnapshot
 	}
 	n := rapid.IntRange(1, 6).Draw(t, "ncalls")
